@@ -120,3 +120,89 @@ Example C14_tlv_overrun_example :
   | _ => False
   end.
 Proof. vm_compute. reflexivity. Qed.
+
+(* (c) round trips, one descriptor in a loop with its 12-bit length: parsing what writeDescriptorsWithLength emits
+   for d (whose Descriptor_Length and foreign bodies are arbitrary) yields the body of d under the header (tag,
+   size), and the iterator stops behind the loop.  Domains: numeric fields within their width (byte_range = 0..255),
+   bodies of 1..255 bytes.  (The byte strings written are compared with the independent Go reference encoder
+   by the implementation-side oracle on every run.) *)
+Theorem C14_rt_stream_identifier : forall d v out rest,
+  Descriptor_Tag d = 82 -> Descriptor_StreamIdentifier d = Some v ->
+  byte_range (DescriptorStreamIdentifier_ComponentTag v) ->
+  enc_descriptors_with_length [d] = Ok out -> items_bytes_ok out ->
+  parse_descriptors (new_iter (bytes_of_items out ++ rest)) =
+    Ok ([set_StreamIdentifier (desc_hdr 82 1) v], mk_iter (bytes_of_items out ++ rest) 5).
+Proof. exact rt_stream_identifier. Qed.
+Print Assumptions C14_rt_stream_identifier.
+
+Theorem C14_rt_data_stream_alignment : forall d v out rest,
+  Descriptor_Tag d = 6 -> Descriptor_DataStreamAlignment d = Some v ->
+  byte_range (DescriptorDataStreamAlignment_Type v) ->
+  enc_descriptors_with_length [d] = Ok out -> items_bytes_ok out ->
+  parse_descriptors (new_iter (bytes_of_items out ++ rest)) =
+    Ok ([set_DataStreamAlignment (desc_hdr 6 1) v], mk_iter (bytes_of_items out ++ rest) 5).
+Proof. exact rt_data_stream_alignment. Qed.
+Print Assumptions C14_rt_data_stream_alignment.
+
+Theorem C14_rt_user_defined : forall d out rest,
+  128 <= Descriptor_Tag d <= 254 -> 0 < zlen (Descriptor_UserDefined d) < 256 ->
+  enc_descriptors_with_length [d] = Ok out -> items_bytes_ok out ->
+  parse_descriptors (new_iter (bytes_of_items out ++ rest)) =
+    Ok ([set_UserDefined (desc_hdr (Descriptor_Tag d) (zlen (Descriptor_UserDefined d))) (Descriptor_UserDefined d)],
+        mk_iter (bytes_of_items out ++ rest) (4 + zlen (Descriptor_UserDefined d))).
+Proof. exact rt_user_defined. Qed.
+Print Assumptions C14_rt_user_defined.
+
+Theorem C14_rt_unknown : forall d v out rest,
+  0 <= Descriptor_Tag d < 256 -> is_user_defined (Descriptor_Tag d) = false -> ~ In (Descriptor_Tag d) typed_tags ->
+  Descriptor_Unknown d = Some v -> DescriptorUnknown_Tag v = Descriptor_Tag d -> 0 < zlen (DescriptorUnknown_Content v) < 256 ->
+  enc_descriptors_with_length [d] = Ok out -> items_bytes_ok out ->
+  parse_descriptors (new_iter (bytes_of_items out ++ rest)) =
+    Ok ([set_Unknown (desc_hdr (Descriptor_Tag d) (zlen (DescriptorUnknown_Content v))) v],
+        mk_iter (bytes_of_items out ++ rest) (4 + zlen (DescriptorUnknown_Content v))).
+Proof. exact rt_unknown. Qed.
+Print Assumptions C14_rt_unknown.
+
+Theorem C14_rt_network_name : forall d v out rest,
+  Descriptor_Tag d = 64 -> Descriptor_NetworkName d = Some v -> 0 < zlen (DescriptorNetworkName_Name v) < 256 ->
+  enc_descriptors_with_length [d] = Ok out -> items_bytes_ok out ->
+  parse_descriptors (new_iter (bytes_of_items out ++ rest)) =
+    Ok ([set_NetworkName (desc_hdr 64 (zlen (DescriptorNetworkName_Name v))) v],
+        mk_iter (bytes_of_items out ++ rest) (4 + zlen (DescriptorNetworkName_Name v))).
+Proof. exact rt_network_name. Qed.
+Print Assumptions C14_rt_network_name.
+
+Theorem C14_rt_private_data_indicator : forall d v out rest,
+  Descriptor_Tag d = 15 -> Descriptor_PrivateDataIndicator d = Some v ->
+  0 <= DescriptorPrivateDataIndicator_Indicator v < 2 ^ 32 ->
+  enc_descriptors_with_length [d] = Ok out -> items_bytes_ok out ->
+  parse_descriptors (new_iter (bytes_of_items out ++ rest)) =
+    Ok ([set_PrivateDataIndicator (desc_hdr 15 4) v], mk_iter (bytes_of_items out ++ rest) 8).
+Proof. exact rt_private_data_indicator. Qed.
+Print Assumptions C14_rt_private_data_indicator.
+
+Theorem C14_rt_private_data_specifier : forall d v out rest,
+  Descriptor_Tag d = 95 -> Descriptor_PrivateDataSpecifier d = Some v ->
+  0 <= DescriptorPrivateDataSpecifier_Specifier v < 2 ^ 32 ->
+  enc_descriptors_with_length [d] = Ok out -> items_bytes_ok out ->
+  parse_descriptors (new_iter (bytes_of_items out ++ rest)) =
+    Ok ([set_PrivateDataSpecifier (desc_hdr 95 4) v], mk_iter (bytes_of_items out ++ rest) 8).
+Proof. exact rt_private_data_specifier. Qed.
+Print Assumptions C14_rt_private_data_specifier.
+
+(* Bitrate is a multiple of 50 below 50 * 2^22 *)
+Theorem C14_rt_maximum_bitrate : forall d v k out rest,
+  Descriptor_Tag d = 14 -> Descriptor_MaximumBitrate d = Some v ->
+  DescriptorMaximumBitrate_Bitrate v = k * 50 -> 0 <= k < 2 ^ 22 ->
+  enc_descriptors_with_length [d] = Ok out -> items_bytes_ok out ->
+  parse_descriptors (new_iter (bytes_of_items out ++ rest)) =
+    Ok ([set_MaximumBitrate (desc_hdr 14 3) v], mk_iter (bytes_of_items out ++ rest) 7).
+Proof. exact rt_maximum_bitrate. Qed.
+Print Assumptions C14_rt_maximum_bitrate.
+
+(* the hypotheses of the round trips are satisfiable: a stream identifier whose struct Length is wrong *)
+Example C14_rt_example :
+  let d := set_StreamIdentifier (desc_hdr 82 77) {| DescriptorStreamIdentifier_ComponentTag := 200 |} in
+  exists out, enc_descriptors_with_length [d] = Ok out /\ items_bytes_ok out /\
+              bytes_of_items out = [240; 3; 82; 1; 200].
+Proof. eexists. split; [vm_compute; reflexivity|]. split; [repeat constructor|reflexivity]. Qed.
